@@ -16,6 +16,15 @@
 (* rate, and that the memory of a controller rebuilt from the history file  *)
 (* equals that of the uninterrupted one (RestartTransparent).               *)
 (*                                                                         *)
+(* The optimizer is a vector of PARAMETER GROUPS, each with a rate of its   *)
+(* own (optlr[g]).  "Writes the new rate into the optimizer" is: after an   *)
+(* update that reduced the rate EVERY group holds the recorded new rate,    *)
+(* whatever it held before (a group constructed with its own rate; a new    *)
+(* optimizer object after a restart from the history file alone, which      *)
+(* nothing loads); an update that does not reduce leaves every group as it  *)
+(* was (OptimizerHasRate, ReductionWritten, TouchedOnlyToReduce; the life   *)
+(* of one optimizer object is followed in TrainCtlOpt).                     *)
+(*                                                                         *)
 (* Metrics are integers (grid units); the learning rate is the number lrk   *)
 (* of reductions applied (lr = lr0 * factor^lrk).                           *)
 (***************************************************************************)
@@ -27,12 +36,12 @@ CONSTANTS ParamSpace,   \* set of parameter records (see TrainCtlMC)
 
 INF == 1000             \* the synthetic epoch-0 metric (float("inf") in the code)
 
-VARIABLES p,        \* parameter record: ne (0 = unlimited), P, B, TH, RP, RB, RC, RTH, EK
+VARIABLES p,        \* parameter record: ne (0 = unlimited), P, B, TH, RP, RB, RC, RTH, EK; optimizer set-up LG, OG, SD
           hist,     \* the CSV: sequence of rows, hist[e] is epoch e
           cache,    \* the controller's memory: 0..Len(hist) -> row (cache_hist)
           conts,    \* sequence of values returned by update_for_epoch
-          optlr,    \* lrk held by the optimizer's param groups
-          ckpt,     \* epoch -> lrk stored in that epoch's optimizer checkpoint
+          optlr,    \* the optimizer: parameter group -> the rate it holds (see GroupRates)
+          ckpt,     \* epoch -> the group rates stored in that epoch's optimizer checkpoint
           decl,     \* declarative tracker (history variable)
           fresh     \* TRUE iff the controller was (re)constructed since the last update
 vars == <<p, hist, cache, conts, optlr, ckpt, decl, fresh>>
@@ -45,6 +54,31 @@ UserOf(e, v) == e * 7 + v                   \* user-defined entry fed alongside
 UserStrs == << "plain", "a,b", "say \"hi\"", "x,\"y\",z", " lead", "trail ", ",", "\"", "", "7", "1,5",
                "two\nlines", "a\rb", "cr\r\nlf" >>      \* line breaks of every kind inside a (quoted) field
 UserStrOf(e, v) == UserStrs[((e * 5 + v) % Len(UserStrs)) + 1]   \* 5 is coprime to the table length
+
+(***************************************************************************)
+(* the optimizer's parameter groups                                        *)
+(*   a group's rate is either a recorded rate lr0 * factor^k (the number k  *)
+(*   >= 0) or "the rate group g was constructed with, which is no recorded  *)
+(*   rate" (OwnRate(g) < 0)                                                 *)
+(* set-up (fields of p):                                                    *)
+(*   LG = 1  log10_learning_rate is given: "Initial optimizer log-learning  *)
+(*           rate" - the initial load writes lr0 into every group; the      *)
+(*           optimizer OBJECT is constructed with rates of its own          *)
+(*   LG = 0  not given: "the initial learning rate of the optimizer         *)
+(*           instance remains unchanged"; the rate recorded as lr0 is the   *)
+(*           optimizer's default, which group 1 follows; group 2 follows it *)
+(*           too (OG = 0) or was constructed with its own rate (OG = 1)     *)
+(*   SD = 1  a state directory is given (optimizer states saved / loaded);  *)
+(*   SD = 0  history file alone: "the information will not be stored/loaded"*)
+(***************************************************************************)
+NG == 2
+Groups == 1..NG
+OwnRate(g) == 0 - g
+AllAt(k) == [g \in Groups |-> k]
+\* the rates a newly constructed optimizer object holds
+Ctor == [g \in Groups |-> IF p.LG = 1 THEN OwnRate(g) ELSE IF g = 1 \/ p.OG = 0 THEN 0 ELSE OwnRate(g)]
+\* ... and after the initial load_model_and_optimizer_for_epoch (epoch 0)
+InitRates == IF p.LG = 1 THEN AllAt(0) ELSE Ctor
 
 Row0 == [epoch |-> 0, esres |-> p.B, espat |-> p.P, rres |-> p.RB, rpat |-> p.RP,
          lrk |-> 0, val |-> INF, trn |-> INF, user |-> 0]
@@ -123,7 +157,7 @@ Init ==
   /\ hist = <<>>
   /\ cache = FromHist(<<>>)
   /\ conts = <<>>
-  /\ optlr = 0
+  /\ optlr = InitRates
   /\ ckpt = [e \in {} |-> 0]
   /\ decl = Decl0
   /\ fresh = TRUE
@@ -136,17 +170,22 @@ UpdateForEpoch(v) ==
         /\ hist' = Append(hist, row)
         /\ cache' = [e \in 0..Len(hist) + 1 |-> IF e = Len(hist) + 1 THEN row ELSE cache[e]]
         /\ conts' = Append(conts, ContOf(row))
-        /\ optlr' = row.lrk          \* param_group["lr"] = new_lr when reduced, else untouched
-        /\ ckpt' = [e \in DOMAIN ckpt \cup {row.epoch} |-> IF e = row.epoch THEN row.lrk ELSE ckpt[e]]
+        \* for param_group in optimizer.param_groups: param_group["lr"] = new_lr  when reduced, else untouched
+        /\ optlr' = IF row.lrk # cache[Len(hist)].lrk THEN AllAt(row.lrk) ELSE optlr
+        \* optimizer.state_dict() (each group with the rate it holds now) saved for the epoch, if there is a directory
+        /\ ckpt' = IF p.SD = 1 THEN [e \in DOMAIN ckpt \cup {row.epoch} |-> IF e = row.epoch THEN optlr' ELSE ckpt[e]]
+                   ELSE ckpt
   /\ decl' = DeclUpdate(v)
   /\ fresh' = FALSE
   /\ UNCHANGED p
 
-\* discard every Python object, construct a new controller on the same files, load last epoch
+\* discard every Python object, construct a new controller (and model, and optimizer) on the same files, load
+\* last epoch: with a state directory the optimizer gets the groups of the last checkpoint; without one nothing is
+\* loaded and the new optimizer object keeps the rates it was constructed with
 Restart ==
   /\ ~fresh /\ ~Stopped
   /\ cache' = FromHist(hist)
-  /\ optlr' = IF Len(hist) = 0 THEN 0 ELSE ckpt[Len(hist)]
+  /\ optlr' = IF Len(hist) = 0 THEN InitRates ELSE IF p.SD = 1 THEN ckpt[Len(hist)] ELSE Ctor
   /\ fresh' = TRUE
   /\ UNCHANGED <<p, hist, conts, ckpt, decl>>
 
@@ -166,7 +205,20 @@ ReduceOnlyOnFire ==
   Len(hist) > 0 =>
     LET prevk == IF Len(hist) = 1 THEN 0 ELSE hist[Len(hist) - 1].lrk
     IN (LastRow.lrk # prevk) <=> (decl.fired /\ NotNegligible(prevk))
-OptimizerHasRate == Len(hist) > 0 => optlr = LastRow.lrk
+PrevK == IF Len(hist) = 1 THEN 0 ELSE hist[Len(hist) - 1].lrk
+\* "writes the new rate into the optimizer": right after an update that reduced the rate every group holds it
+ReductionWritten == (~fresh /\ Len(hist) > 0 /\ LastRow.lrk # PrevK) => optlr = AllAt(LastRow.lrk)
+\* with a state directory, restarts or not: every group holds the recorded rate as soon as the rate was ever
+\* reduced, and until then the rate it started with (configured rate given: that IS the recorded rate);
+\* from the history file alone: the recorded rate, or what a new optimizer object starts with
+OptimizerHasRate == Len(hist) > 0 =>
+  \A g \in Groups :
+     IF p.SD = 1 THEN optlr[g] = (IF LastRow.lrk > 0 THEN LastRow.lrk ELSE InitRates[g])
+     ELSE optlr[g] \in {LastRow.lrk, Ctor[g], InitRates[g]}
+\* "never otherwise": an update that does not reduce the rate leaves every group as it was (action property)
+TouchedOnlyToReduce ==
+  [][(Len(hist') = Len(hist) + 1 /\ optlr' # optlr) =>
+        hist'[Len(hist')].lrk # (IF Len(hist) = 0 THEN 0 ELSE hist[Len(hist)].lrk)]_vars
 \* lemma (used by TrainCtlRb): the tracker carried along equals the tracker recomputed over the whole chain
 DeclIsChain == decl = DeclOver(hist, Len(hist))
 \* a controller rebuilt from the files has the memory of the uninterrupted one
@@ -180,6 +232,8 @@ BestTrnOf(h) == CHOOSE b \in 0..Len(h) :
                /\ \A x \in 0..Len(h) : (IF b = 0 THEN INF ELSE h[b].trn) <= (IF x = 0 THEN INF ELSE h[x].trn)
                /\ \A y \in 0..Len(h) : (IF y = 0 THEN INF ELSE h[y].trn) = (IF b = 0 THEN INF ELSE h[b].trn) => b <= y
 TypeOK == /\ Len(conts) = Len(hist)
+          /\ DOMAIN optlr = Groups /\ \A g \in Groups : optlr[g] \in Nat \cup {OwnRate(g)}
+          /\ DOMAIN ckpt = IF p.SD = 1 THEN 1..Len(hist) ELSE {}
           /\ \A e \in 1..Len(hist) : hist[e].epoch = e /\ hist[e].espat \in 0..p.P /\ hist[e].rpat \in 1..p.RP
           /\ \A e \in 1..Len(hist) : hist[e].esres \in 0..p.B /\ hist[e].rres \in 0..(IF p.RB > p.RC THEN p.RB ELSE p.RC)
 
